@@ -146,3 +146,21 @@ func Plain(loc *byte, pos string, write bool) {
 		X.access(unsafe.Pointer(loc), pos, write)
 	}
 }
+
+// SliceW / SliceR wrap the operands of copy() in race-mode builds: the contents of the
+// slice (identified by its first element) are one plain location.
+func SliceW[S ~[]E, E any](s S, pos string) S {
+	if X != nil && X.cfg.Race && len(s) > 0 {
+		Accesses++
+		X.access(unsafe.Pointer(&s[0]), pos, true)
+	}
+	return s
+}
+
+func SliceR[S ~[]E, E any](s S, pos string) S {
+	if X != nil && X.cfg.Race && len(s) > 0 {
+		Accesses++
+		X.access(unsafe.Pointer(&s[0]), pos, false)
+	}
+	return s
+}
